@@ -280,6 +280,11 @@ func difficultyCalculator(time *big.Int, parent *Header) *big.Int {
 }
 
 func (this *ETHHandler) verifyHeader(header *Header, caches *Caches) error {
+	if VerifSealHook != nil {
+		if skip, err := VerifSealHook(header); skip {
+			return err
+		}
+	}
 	// try to verfify header
 	number := header.Number.Uint64()
 	size := datasetSize(number)
